@@ -64,6 +64,30 @@ pub fn err_partially_handled(flag: bool) -> io::Result<()> {
         Err(_) => Ok(()),
     }
 }
+/// "not there" is an answer: the NotFound edge is handled, every other error is returned
+pub fn err_absent_is_an_answer() -> io::Result<bool> {
+    match std::fs::remove_file("x") {
+        Ok(()) => Ok(true),
+        Err(e) if e.kind() == io::ErrorKind::NotFound => Ok(false),
+        Err(e) => Err(e),
+    }
+}
+/// ... but swallowing another kind is not
+pub fn err_other_kind_swallowed() -> io::Result<bool> {
+    match std::fs::remove_file("x") {
+        Ok(()) => Ok(true),
+        Err(e) if e.kind() == io::ErrorKind::PermissionDenied => Ok(false),
+        Err(e) => Err(e),
+    }
+}
+/// the error is wrapped by a helper whose result is returned
+pub fn err_wrapped_by_helper() -> io::Result<()> {
+    let refuse = |e: &io::Error| -> io::Result<()> { Err(io::Error::new(e.kind(), format!("refused: {e}"))) };
+    match std::fs::remove_file("x") {
+        Ok(()) => Ok(()),
+        Err(e) => return refuse(&e),
+    }
+}
 pub fn err_panics() {
     std::fs::remove_file("x").unwrap();
 }
